@@ -115,6 +115,16 @@ theorem rect_set_total (m : Map) (e : Int) (x1 y1 x2 y2 : Nat) (hwf : WF m)
     exact rect_set_single _ m m' e x y _ _ hwf hx2 hy2 (Or.inr rfl) (Or.inr rfl) h
   · exact rect_set true _ m m' e x1 y1 x2 y2 hwf hx hx2 hy hy2 hs h
 
+/-- the model lets `set_elevation` work on *positions*; they are the positions of exactly the tile objects
+`get_square_2d` returns (row by row, left to right) -/
+theorem selection_positions (m : Map) (hwf : WF m) (x1 y1 x2 y2 : Nat)
+    (hx : x1 ≤ x2) (hx2 : x2 < m.size) (hy : y1 ≤ y2) (hy2 : y2 < m.size) :
+    ∃ rows prows, square2d m x1 y1 x2 y2 = .ok rows ∧ squareRowsPos m x1 y1 x2 y2 = .ok prows ∧
+      rows.length = prows.length ∧
+      ∀ dx dy, dx ≤ x2 - x1 → dy ≤ y2 - y1 → ∃ r pr k, rows[dy]? = some r ∧ prows[dy]? = some pr ∧
+        pr[dx]? = some k ∧ r[dx]? = m.tiles[k]? ∧ k = (x1 + dx) + (y1 + dy) * m.size :=
+  squareRows_pos_agree m hwf x1 y1 x2 y2 hx hx2 hy hy2
+
 /-! ### the closed form -/
 
 /-- **pyramid_rect**: inside the rectangle the closed form is the requested elevation -/
